@@ -71,9 +71,27 @@ def oracle_definition(facts, rep):
     while e[0] == "un" and e[1] == "Not":
         e = e[2]
         neg += 1
-    ok_shape = neg == 1 and E.is_call(e, "Iterator::any") and E.mentions_call(e, "Iterator::filter") and E.mentions_field(e, "matched_readers")
-    add("R03b", "is_change_acknowledged = !matched_readers.filter(reliable).any(unacked)", ok_shape, "shape is %s" % fc.show(ret)[:200])
     kids = facts.closure_of(b)
+    # the restriction to reliable proxies is either a filter before the any(), or a conjunct inside the any() closure
+    # (`any(|p| p.reliability() == Reliable && p.unacked_changes(..))`)
+    merged = False
+    for k in kids:
+        if k.calls_any("RtpsReaderProxy::unacked_changes") and k.calls_any("RtpsReaderProxy::reliability"):
+            kf = FnCtx(k)
+            ub = [bb for bb, t in kf.calls("RtpsReaderProxy::unacked_changes")]
+
+            def rel_true(ce):
+                c = cmp_norm(E.strip_casts(ce.expr))
+                if c and c[0] in ("Eq", "Ne") and any(x[0] == "adt" and x[2] == "Reliable" for x in (E.strip_casts(c[1]), E.strip_casts(c[2]))) \
+                        and any(E.mentions_call(x, "RtpsReaderProxy::reliability") for x in (c[1], c[2])):
+                    return "true" if c[0] == "Eq" else "false"
+                return None
+            g = kf.guards(rel_true)
+            defs0 = [kf._def_expr(d) for d in kf.mir.whole_defs(0)]
+            only_false_or_unacked = all((E.strip_casts(de) == ("const", 0)) or E.is_call(E.strip_casts(de), "RtpsReaderProxy::unacked_changes") for de in defs0)
+            merged = bool(g) and kf.only_through(ub, g) and only_false_or_unacked
+    ok_shape = neg == 1 and E.is_call(e, "Iterator::any") and E.mentions_field(e, "matched_readers") and (E.mentions_call(e, "Iterator::filter") or merged)
+    add("R03b", "is_change_acknowledged = !matched_readers.filter(reliable).any(unacked)", ok_shape, "shape is %s" % fc.show(ret)[:200])
     unacked = [k for k in kids if k.calls_any("RtpsReaderProxy::unacked_changes")]
     add("R03b", "any-closure asks RtpsReaderProxy::unacked_changes", len(unacked) == 1, "closures calling unacked_changes: %d" % len(unacked))
     for k in unacked:
@@ -92,7 +110,7 @@ def oracle_definition(facts, rep):
         c = cmp_norm(r)
         if c and c[0] == "Eq" and any(x[0] == "adt" and x[2] == "Reliable" for x in (c[1], c[2])):
             ok = True
-    add("R03b", "filter keeps exactly the Reliable proxies", ok, "no closure of the form reliability() == Reliable")
+    add("R03b", "filter keeps exactly the Reliable proxies", ok or merged, "no closure of the form reliability() == Reliable")
     # unacked_changes
     u = facts.fn("RtpsReaderProxy", "unacked_changes")
     uf = FnCtx(u)
